@@ -231,7 +231,9 @@ for _cls in ('Field', 'Component'):
              requires=['sep(self.children)', 'self.children.element is self'],
              ensures=ADD_ENSURES,
              raises=dict(ADD_RAISES, UnsupportedVersion={'ensures': ADD_RAISES['ChildNotValid']['ensures'], 'modifies': []}),
-             modifies=ADD_MODIFIES, allocates=['La.R', 'Ll'], properties=['C09', 'C10', 'C12', 'C05'])
+             # C17 / C05: the base-datatype question is asked for the element's own version, not the process default
+             call_asserts={'is_base_datatype': [('own_version', 'arg(1) == self.version')]},
+             modifies=ADD_MODIFIES, allocates=['La.R', 'Ll'], properties=['C09', 'C10', 'C12', 'C05', 'C17'])
 
 # ---- _is_valid_child: the interface says "pure, raises only ChildNotFound / ChildNotValid"; the definitions are run
 # against exactly that (frame + raises_only)
